@@ -22,16 +22,17 @@ import (
 
 // vfc03Scenario is one set of scripted stores.
 type vfc03Scenario struct {
-	Strip   bool   // request carries WithoutReplicaLabels=[k]
-	Class   string // chunk class: raw | aggr | mixed | nochunks
-	Stores  []*vfc03StoreSpec
-	Model   map[string]*vfc03Want // expected output by final label set string
-	Order   []string              // expected label sets in output order
-	Split   bool                  // some series was split over frames
-	Shared  bool                  // some final label set is held by two streams / twice in one stream
-	Resort  bool                  // some store needs the proxy-side re-sort
-	DupSame bool                  // some chunk appears twice inside one store's stream for one label set
-	MixRepl bool                  // some store holds series with and without the replica label
+	Strip    bool   // request carries WithoutReplicaLabels=[k]
+	Class    string // chunk class: raw | aggr | mixed | nochunks
+	Stores   []*vfc03StoreSpec
+	Model    map[string]*vfc03Want // expected output by final label set string
+	Order    []string              // expected label sets in output order
+	Split    bool                  // some series was split over frames
+	Shared   bool                  // some final label set is held by two streams / twice in one stream
+	Resort   bool                  // some store needs the proxy-side re-sort
+	DupSame  bool                  // some chunk appears twice inside one store's stream for one label set
+	MixRepl  bool                  // some store holds series with and without the replica label
+	AggrTail bool                  // some aggregated chunk agrees with another one only in a prefix of its aggregate fields
 	// at most one store fails (request then uses the WARN strategy): -1 = none
 	FailIdx   int
 	FailKind  int // vfc03FaultOpen | vfc03FaultRecv
@@ -120,6 +121,11 @@ func vfc03Gen(rng *rand.Rand) *vfc03Scenario {
 								c.Aggr = true
 							case "mixed":
 								c.Aggr = rng.Intn(2) == 0
+							}
+							if c.Aggr && rng.Intn(4) == 0 {
+								// same range, same first aggregates (Count; Count+Sum; ...) as the plain chunk, different later ones
+								c.TailFrom, c.TailVariant = 1+rng.Intn(4), rng.Intn(2)
+								sc.AggrTail = true
 							}
 							cs = append(cs, c)
 						}
@@ -288,7 +294,7 @@ func (sc *vfc03Scenario) failDesc() string {
 }
 
 // vfc03Run drives the real ProxyStore.Series over the scripted stores.
-func vfc03Run(sc *vfc03Scenario, cfg vfc03Config, delaySeed int64) (out []vfc03Out, warns []string, err error, sig string, hung bool) {
+func vfc03Run(sc *vfc03Scenario, cfg vfc03Config, delaySeed int64) (out []vfc03Out, warns []string, late []vfc03Out, lateWarns []string, err error, sig string, hung bool) {
 	tr := &vfc03Trace{}
 	var clients []Client
 	for i, st := range sc.Stores {
@@ -324,10 +330,11 @@ func vfc03Run(sc *vfc03Scenario, cfg vfc03Config, delaySeed int64) (out []vfc03O
 	select {
 	case err = <-done:
 	case <-time.After(120 * time.Second):
-		return nil, nil, nil, tr.String(), true
+		return nil, nil, nil, nil, nil, tr.String(), true
 	}
 	out, warns = srv.flat()
-	return out, warns, err, tr.String(), false
+	late, lateWarns = srv.flatRetained()
+	return out, warns, late, lateWarns, err, tr.String(), false
 }
 
 // vfc03Check is the oracle: the flattened output must be exactly the model.
@@ -400,14 +407,14 @@ func TestVF_C03(t *testing.T) {
 	r := vfkit.Start(t, "C03")
 	defer r.Finish()
 	r.Rule("case = 1..5 scripted stores (label-sorted streams over a small label universe so label sets repeat across stores; series split over 1..3 frames, frames packed into upstream batches, " +
-		"chunks duplicated across stores/frames, raw/aggregated/mixed/no chunks, replica label k with and without WithoutReplicaLabels, stores holding series with and without k, stores that cannot strip it => proxy re-sort; " +
+		"chunks duplicated across stores/frames, raw/aggregated/mixed/no chunks, aggregated chunks of one range that agree only in a prefix of their aggregate fields (same Count; same Count+Sum; ...), replica label k with and without WithoutReplicaLabels, stores holding series with and without k, stores that cannot strip it => proxy re-sort; " +
 		"in 1/3 of the scenarios one store at a random position fails under the WARN strategy: Series() open error or Recv error (9 error shapes) after k delivered frames) " +
 		"x 12 (thorough 24) configurations of {eager, lazy buf 1/2/3/20} x ResponseBatchSize {0,1,2,5,64}, PRNG delays in every Recv, GOMAXPROCS cycled 1/2/4/16; " +
-		"oracle: flattened response == reference model built from every frame a store delivered before it ended or failed (label sets strictly increasing, each once, exactly the distinct chunks (range+bytes), time ordered, no error, no warning that names no failed store) for every configuration; " +
+		"oracle: flattened response == reference model built from every frame a store delivered before it ended or failed (label sets strictly increasing, each once, exactly the distinct chunks (range+bytes), time ordered, no error, no warning that names no failed store) for every configuration and for two readers (frames decoded inside Send / frame objects retained and decoded after Series returned); " +
 		"distinct = hash of scripted streams+configuration; non-trivial = a label set held by >= 2 streams or split over frames; signature = order in which the stores' frames were pulled")
 	n := r.N(400, 6000)
 	perScenario := r.N(12, 24)
-	r.Require(int64(n*perScenario), n*perScenario/3)
+	r.Require(int64(2*n*perScenario), n*perScenario/3)
 	r.Assume("each store streams label-sorted series, a series' frames are consecutive, chunk bytes determine the chunk's time range (StoreAPI contract)")
 	r.Assume("identity of a chunk = (min time, max time, bytes of every aggregate field)")
 	all := vfc03AllConfigs()
@@ -439,13 +446,22 @@ func TestVF_C03(t *testing.T) {
 				var warns []string
 				var err error
 				var sig string
-				out, warns, err, sig, hung = vfc03Run(sc, cfg, int64(c)*131+int64(ci)+r.Seed()*1_000_003)
+				var late []vfc03Out
+				var lateWarns []string
+				out, warns, late, lateWarns, err, sig, hung = vfc03Run(sc, cfg, int64(c)*131+int64(ci)+r.Seed()*1_000_003)
 				if hung {
 					return
 				}
 				r.Signature(sig)
-				r.Eval(1)
-				fp, what = vfc03Check(sc, out, warns, err)
+				r.Eval(2)
+				// two readers of the same response stream: one decodes every frame inside Send, the other keeps the
+				// frame objects and decodes them after Series returned; both must equal the reference model
+				if fp, what = vfc03Check(sc, out, warns, err); fp == "" {
+					if fp, what = vfc03Check(sc, late, lateWarns, err); fp != "" {
+						fp, what = "read-after-send:"+fp, "frames decoded after Series returned (they equalled the model when decoded inside Send): "+what
+						out = late
+					}
+				}
 			})
 			if hung {
 				r.Inconclusive(fmt.Sprintf("case %d config %s: ProxyStore.Series did not return within 120s", c, cfg))
@@ -470,6 +486,9 @@ func TestVF_C03(t *testing.T) {
 		}
 		if sc.MixRepl {
 			r.Count("scenarios_with_mixed_replica_label_presence", 1)
+		}
+		if sc.AggrTail {
+			r.Count("scenarios_with_aggr_chunks_sharing_a_field_prefix", 1)
 		}
 		if sc.Shared {
 			r.Count("scenarios_with_shared_labelset", 1)
